@@ -32,8 +32,8 @@ def confirm(pid, x):
     sh("git checkout -q --detach $(git -C /repo rev-parse HEAD) && git checkout -- . && rm -f tests/demo.rs", cwd=SCRATCH)
     res = {}
     shutil.copy(demo, os.path.join(SCRATCH, "tests", "demo.rs"))
-    rc, out = sh("cargo test --offline --test demo 2>&1 | tail -30", cwd=SCRATCH)
-    res["demo_clean_passes"] = "test result: ok" in out
+    rc, out = sh("cargo test --offline --test demo 2>&1", cwd=SCRATCH)
+    res["demo_clean_passes"] = rc == 0 and "test result: ok" in out
     rc, out = sh(f"git apply {patch} || git apply -3 {patch}", cwd=SCRATCH)
     res["applies"] = rc == 0
     if rc != 0:
@@ -43,8 +43,8 @@ def confirm(pid, x):
     rc2, out2 = sh("cargo test --offline --no-fail-fast --lib --test it 2>&1", cwd=SCRATCH)
     res["suite_failures_with_patch"] = failing_tests(out2)
     res["suite_unchanged"] = failing_tests(out2) == ["functions::test_to_serde_json"] and "error: could not compile" not in out2
-    rc, out = sh("cargo test --offline --test demo 2>&1 | tail -30", cwd=SCRATCH)
-    res["demo_patched_fails"] = "FAILED" in out or "panicked" in out
+    rc, out = sh("cargo test --offline --test demo 2>&1", cwd=SCRATCH)
+    res["demo_patched_fails"] = rc != 0 and "could not compile" not in out
     sh("git checkout -- . ; git reset -q --hard ; rm -f tests/demo.rs", cwd=SCRATCH)
     ok = all([res["demo_clean_passes"], res["applies"], res["suite_unchanged"], res["demo_patched_fails"]])
     print(pid, x, "CONFIRMED" if ok else "REJECTED", res)
